@@ -368,6 +368,11 @@ class World(object):
 
     # ------------------------------------------------------------------ calls
     def call_by_contract(self, it, fn, args, kwargs):
+        from .verify import opaque_decorators
+        odd = opaque_decorators(fn.node)
+        if odd:
+            # what the name is bound to is whatever the decorator returned (a memoising wrapper, say), not this body
+            raise OutOfReach('callee %s is decorated with %s: the callable that runs is not the function body' % (fn.fullname, ', '.join(odd)))
         c = self.contracts.get(fn.fullname)
         if c is None:
             # a helper without a contract (for instance one that a refactoring has just split off): there is nothing to check
@@ -388,6 +393,22 @@ class World(object):
             it.ctx.flags.add('inlined callee %s in %s' % (c.name, cur.name))
             return it.run_function(fn.node, fn.module, args, kwargs, func=fn)
         return c.apply(it, fn, args, kwargs)
+
+    def class_assigns_attr(self, cls, name):
+        """ does some method of the class (or of a base class defined in the repo) assign self.<name>? """
+        key = (id(cls), name)
+        cache = self.__dict__.setdefault('_assigns_cache', {})
+        if key not in cache:
+            found = False
+            node = getattr(cls, 'node', None)
+            for n in (ast.walk(node) if node is not None else ()):
+                if isinstance(n, ast.Attribute) and n.attr == name and isinstance(n.ctx, ast.Store) and isinstance(n.value, ast.Name) and n.value.id == 'self':
+                    found = True
+                    break
+            if not found:
+                found = any(isinstance(b, ClassRef) and self.class_assigns_attr(b, name) for b in getattr(cls, 'bases', ()))
+            cache[key] = found
+        return cache[key]
 
     def call_inductive(self, it, fn, args, kwargs):
         """ application of an @inductive spec function (recursion on the first, integer, parameter).  Concrete first argument:
@@ -1201,13 +1222,14 @@ class SpecAPI(object):
     def s_host_calls(self, it, a, k):
         """ the ghost log of call-outs to host code, in order: objects with .fn (the callee value), .args, .ret (None if raised) """
         out = []
-        HC = NamedTupleClass('HostCall', ['fn', 'args', 'returned', 'ret'])
+        HC = NamedTupleClass('HostCall', ['fn', 'args', 'returned', 'ret', 'kwargs'])
         for e in it.ctx.log:
             if isinstance(e, dict) and e['kind'] == 'host':
                 fn = e['fn']
                 r = e['result']
                 out.append(Obj(HC, {'fn': fn.sym if fn.sym is not None else fn, 'args': list(e['args']),
-                                    'returned': bool(r and r[0] == 'ret'), 'ret': r[1] if r and r[0] == 'ret' else None}))
+                                    'returned': bool(r and r[0] == 'ret'), 'ret': r[1] if r and r[0] == 'ret' else None,
+                                    'kwargs': dict(e.get('kwargs') or {})}))
         return out
 
     def s_setter_values(self, it, a, k):
